@@ -26,7 +26,7 @@ REDUCED = {'gtvf': lambda c: not c['openmp'] and (
     c['nnps'] in ('ll', 'box', 'sfc', 'tree') and
     (c['reorder'] or c['cache'] or c == DEFAULT or c['sort']))}
 DEFAULT = dict(nnps='ll', cache=False, openmp=False, threads=1, reorder=0,
-               sort=False)
+               sort=False, table=0)
 
 
 def run_app(problem, cfg, tmpdir):
@@ -39,6 +39,8 @@ def run_app(problem, cfg, tmpdir):
     set_number_of_threads(cfg['threads'] if cfg['openmp'] else 1)
     argv = ['--nnps', cfg['nnps'], '--disable-output', '--quiet',
             '--directory', tmpdir, '--reorder-freq', str(cfg['reorder'])]
+    if cfg.get('table'):
+        argv += ['--spatial-hash-table-size', str(cfg['table'])]
     if cfg['cache']:
         argv.append('--cache-nnps')
     if cfg['sort']:
@@ -149,6 +151,10 @@ def configs(thorough, seed):
         for sort in (False, True):
             add(nnps=n, sort=sort)
         add(nnps=n, sort=True, cache=True)
+    # tiny hash tables: many occupied cells share a bucket
+    for n in ('sh', 'esh', 'strat_hash'):
+        add(nnps=n, table=7)
+        add(nnps=n, table=5, cache=True, sort=True)
     for t in THREADS:
         add(openmp=True, threads=t)
         add(openmp=True, threads=t, sort=True)
